@@ -65,11 +65,21 @@ theorem noLF_pow_any (u : Ucd) : ∀ (c : Text), NoLF c → Rx.Pow (Lang u .any)
     simp only [NoLF, List.mem_cons, not_or] at h
     exact ⟨[a], as, rfl, ⟨a, fun e => h.1 e.symm, rfl⟩, noLF_pow_any u as h.2⟩
 
+/-- the remainder group before fc43a19 (`.*?`): exactly the texts without a line feed -/
 theorem lang_lazyDotStar (u : Ucd) (c : Text) : Lang u Rx.lazyDotStar c ↔ NoLF c := by
   simp only [Rx.lazyDotStar, Lang]
   constructor
   · rintro ⟨k, _, _, hp⟩; exact pow_any_noLF u k c hp
   · intro h; exact ⟨c.length, Nat.zero_le _, by simp, noLF_pow_any u c h⟩
+
+theorem pow_all (u : Ucd) : ∀ (c : Text), Rx.Pow (Lang u .all) c.length c
+  | [] => rfl
+  | a :: as => ⟨[a], as, rfl, ⟨a, rfl⟩, pow_all u as⟩
+
+/-- the remainder group (`(?s:.*?)`): every text -/
+theorem lang_lazyAllStar (u : Ucd) (c : Text) : Lang u Rx.lazyAllStar c := by
+  simp only [Rx.lazyAllStar, Lang]
+  exact ⟨c.length, Nat.zero_le _, by simp, pow_all u c⟩
 
 theorem mem_bind_env (xs : Res) (f : Text → List Env) (g : Text → Text × Val) (e : Env) :
     e ∈ (xs.flatMap fun x => (f x.2).map fun e' => g x.1 :: e') ↔
@@ -138,8 +148,9 @@ def toksOk : List Tok → Bool
   | .ph _ rx :: ts => Rx.ok rx && toksOk ts
   | _ :: ts => toksOk ts
 
+/-- every alternative `re` can backtrack through is a reading of the whole path -/
 theorem matchAll_sound (u : Ucd) : ∀ (ts : List Tok) (p : Text) (e : Env),
-    e ∈ matchAll u .endOfString ts p → Splits u NoLF ts p e
+    e ∈ matchAll u .endOfString ts p → Splits u (fun _ => True) ts p e
   | [], p, e, h => by
     by_cases hp : p = []
     · subst hp
@@ -165,11 +176,12 @@ theorem matchAll_sound (u : Ucd) : ∀ (ts : List Tok) (p : Text) (e : Env),
     simp only [matchAll] at h
     have h := (mem_bind_env _ (fun r => matchAll u .endOfString ts r) (fun c => (n, Val.segs (splitPathInfo c))) e).mp h
     obtain ⟨c, rest, e', h1, h2, rfl⟩ := h
-    obtain ⟨rfl, hl⟩ := Rx.run_sound u Rx.lazyDotStar p c rest h1
-    exact .rest ((lang_lazyDotStar u c).mp hl) (matchAll_sound u ts rest e' h2)
+    obtain ⟨rfl, _⟩ := Rx.run_sound u Rx.lazyAllStar p c rest h1
+    exact .rest trivial (matchAll_sound u ts rest e' h2)
 
-theorem matchAll_complete (u : Ucd) {ts : List Tok} {p : Text} {e : Env} (hok : toksOk ts = true)
-    (s : Splits u NoLF ts p e) : e ∈ matchAll u .endOfString ts p := by
+/-- every reading of the whole path (whatever the remainder holds — `P` is arbitrary) is among the alternatives -/
+theorem matchAll_complete (u : Ucd) {P : Text → Prop} {ts : List Tok} {p : Text} {e : Env} (hok : toksOk ts = true)
+    (s : Splits u P ts p e) : e ∈ matchAll u .endOfString ts p := by
   induction s with
   | nil => simp [matchAll, atEnd]
   | @lit l ts p e _ ih =>
@@ -182,10 +194,10 @@ theorem matchAll_complete (u : Ucd) {ts : List Tok} {p : Text} {e : Env} (hok : 
     simp only [matchAll]
     refine (mem_bind_env _ (fun r => matchAll u .endOfString ts r) (fun c => (n, Val.str c)) _).mpr ?_
     exact ⟨c, p, e, Rx.run_complete u rx hok.1 c p hl, ih hok.2, rfl⟩
-  | @rest n ts c p e hr _ ih =>
+  | @rest n ts c p e _ _ ih =>
     simp only [matchAll]
     refine (mem_bind_env _ (fun r => matchAll u .endOfString ts r) (fun c => (n, Val.segs (splitPathInfo c))) _).mpr ?_
-    exact ⟨c, p, e, Rx.run_complete u Rx.lazyDotStar (by decide) c p ((lang_lazyDotStar u c).mpr hr),
+    exact ⟨c, p, e, Rx.run_complete u Rx.lazyAllStar (by decide) c p (lang_lazyAllStar u c),
       ih (by simpa [toksOk] using hok), rfl⟩
 
 /-! ### priority for the default placeholder -/
